@@ -44,7 +44,7 @@ def generate(r, tier):
           "policy": r.choice([None, None, "kconfig"])}
     hand = [kgen.handwritten(r, prog) for _ in range(r.randint(0, 2))]
     sc["hand"] = hand
-    sc["ops"] = ops.gen_history(r, prog, r.randint(4, 30), weights={"edge": 25, "read": 25, "save": 4, "load": 5, "restart": 2, "reset": 10, "reset_menu": 4, "load_bad": 2, "stale_merge": 2},
+    sc["ops"] = ops.gen_history(r, prog, r.randint(4, 30), weights={"edge": 25, "read": 25, "save": 4, "load": 5, "restart": 2, "reset": 10, "reset_menu": 4, "load_bad": 2, "stale_merge": 2, "stale_chain": 3},
                                 hand_n=len(hand))
     n = len(sc["ops"])
     sc["checkpoints"] = sorted(r.sample(range(1, n + 1), r.choice([0, 0, 1]))) if n > 1 else []
